@@ -111,7 +111,7 @@ func main() {
 		Assumptions: []string{
 			"the model's current hour advances when the rollover is processed (flush, New, clear), not when the clock alone advances: between a clock advance and the next flush (production: at most the flusher's 1 s sleep) updates land in, and the window is anchored at, the not-yet-flushed hour",
 			"an hour that lay outside the then-current window (current-limit, current] at some moment since it was counted may have been deleted: 0 or the full count of that hour is accepted (all categories together), nothing in between",
-			"statistics stay enabled (interval 0 / enabled=false is not in the alphabet); no ignored names; top_* lists and avg_processing_time are not part of the property",
+			"no ignored names; top_* lists and avg_processing_time are not part of the property",
 			"virtual hours only move forward; base hour 480013 (so hour ids never wrap below 0)",
 		},
 	})
